@@ -46,7 +46,8 @@ RULE = ('SimpleClient on the real Client on the harness engine, its two '
         'for good; emit() hands exactly one frame to an engine connection or '
         'raises DisconnectedError. Non-trivial: an arrival between the '
         "consumer's emptiness test and its wait, or between its wake-up and "
-        'its clear().')
+        'its clear().'
+        " Histories also end by the application's own disconnect() (connected, or during a reconnection: no further attempt may follow), and every history that has ended for good is probed with a fresh receive() and emit().")
 ASSUMPTIONS = [
     'one consumer (the class is documented for a single application thread)',
     'call() time-outs are not judged',
